@@ -138,10 +138,12 @@ func HandleFetch(deps ServerDeps, conn net.Conn, tag string, parts []string, sta
 		rows, err = targetDB.Query(query, state.SelectedMailboxID)
 	} else {
 		msgNum, parseErr := strconv.Atoi(sequence)
-		if parseErr != nil {
+		if parseErr != nil || msgNum < 1 {
 			deps.SendResponse(conn, fmt.Sprintf("%s BAD Invalid sequence number", tag))
 			return
 		}
+		// A single message number is answered under that number, like n:n
+		start, useRange = msgNum, true
 		query := `SELECT mm.message_id, mm.uid, mm.flags
 		          FROM message_mailbox mm
 		          WHERE mm.mailbox_id = ?
